@@ -377,6 +377,9 @@ class Interp:
                 return ("None",)
             if p in ("true", "false"):
                 return p == "true"
+            fn_items = getattr(self, "fn_items", None)
+            if fn_items is not None and fn_items(p):
+                return ("fnitem", p)        # a function used as a value (`&is_string_literal` passed as `&dyn Fn`)
             return OPAQUE
         last = p.split("::")[-1]
         if p in self.consts:
@@ -667,6 +670,7 @@ class Interp:
         return OPAQUE
 
     def e_call(self, e):
+        global CURRENT
         f = e["f"]
         fname = f.get("p") if f["k"] == "path" else None
         args = [self.eval(a) for a in e["a"]]
@@ -674,10 +678,19 @@ class Interp:
             lv = self.lookup(fname)
             if isinstance(lv, dict) and lv.get("k") == "closure":
                 return self.call_closure(lv, args)
+            if isinstance(lv, tuple) and lv[:1] == ("fnitem",):
+                CURRENT = self
+                r = self.on_call("fn", lv[1], e, args, None) if self.on_call else NotImplemented
+                CURRENT = self
+                if r is not NotImplemented:
+                    return r
+                raise Unknown("call of function value %s" % lv[1])
         if fname in ("Some", "Ok", "Err"):
             return (fname, args[0] if args else ("tuple", []))
         if self.on_call:
+            CURRENT = self
             r = self.on_call("fn", fname or f.get("s"), e, args, None)
+            CURRENT = self
             if r is not NotImplemented:
                 return r
         if fname and fname.endswith("::try_from") and len(args) == 1:
@@ -735,6 +748,7 @@ class Interp:
         sub.consts = self.consts
         sub.resolve_fn = getattr(self, "resolve_fn", None)
         sub.strict_try = getattr(self, "strict_try", False)
+        sub.fn_items = getattr(self, "fn_items", None)
         sub._inline_depth = depth + 1
         try:
             return sub.block(fnode["body"])
@@ -742,13 +756,14 @@ class Interp:
             return r.v
 
     def e_mcall(self, e):
+        global CURRENT
         recv = self.eval(e["r"])
         m = e["m"]
         if self.on_call:
             args = None
-            global CURRENT
             CURRENT = self          # the interpreter evaluating this call (a scripted callee may need to evaluate an argument place)
             r = self.on_call("method", m, e, args, recv)
+            CURRENT = self
             if r is not NotImplemented:
                 return r
         # closures in arguments are not evaluated
